@@ -39,6 +39,15 @@ def cases(draw, subject=None, max_n=40):
             for k in (1, 2, 3, 4):
                 r[k] = r[k] - pivot
         case["zero_touching"] = True
+    if n and draw(st.integers(0, 7)) == 0:
+        # bad ticks: a close outside [low, high] (the statement's recurrence is defined for any four numbers)
+        for r in case["stream"]:
+            k = draw(st.sampled_from((0, 0, 0, 1, 2)))
+            if k == 1:
+                r[4] = r[2] + abs(r[2] - r[3]) + 1.0  # close above the high
+            elif k == 2:
+                r[4] = r[3] - abs(r[2] - r[3]) - 1.0  # close below the low
+        case["bad_ticks"] = True
     if case["stream"] and case["stream"][0][0] is not None and draw(st.integers(0, 3)) == 0:
         case["hexital_tf2"] = draw(st.sampled_from(("T1", "T5", "H1", "S30")))
     return case
@@ -99,6 +108,8 @@ def run_case(case) -> Result:
         labels.append("has_tf")
     if case.get("zero_touching"):
         labels.append("zero_touching")
+    if case.get("bad_ticks"):
+        labels.append("bad_ticks")
     viol = []
     ha = _counting_ha()
     kw = {"candlestick_type": ha}
